@@ -200,4 +200,75 @@ func rulesC03(e *Engine, r *Report) {
 				"neither the validator (on every failure path) nor initStageFile (on every state==failed path) removes the stale companion: a re-sent file completes at its first part and fails validation for ever", 2, append(factsA, factsB...)...)
 		}
 	}
+	// ---------------------------------------------------------------- R03.6
+	r.Rule("R03.6", "a held file whose predecessor is unknown keeps being re-examined: every call of toWait with a positive delay arms a fresh timer (time.AfterFunc stored in the file's wait field) on every path - a timer that already fired must not count as pending -, the timer's callback puts the file back on the finalize queue, and isFileReady asks for a positive delay on the `predecessor not found in the log` path")
+	if fn := needFn(e, r, "R03.6", "stage.(*Stage).toWait"); fn != nil {
+		cls := labeler(
+			C("(0 < p3)", "delayAsked"),
+			I("store(p2.wait = call(time.AfterFunc)(p3, §))", "armed"),
+			IK("store(p2.wait = nil)", "armed"),
+		)
+		n := 0
+		for _, rw := range e.returnWorlds(r, "R03.6", fn, cls) {
+			if rw.W.Has("delayAsked") {
+				n++
+				r.Check(rw.W.Has("armed"), "R03.6", fmt.Sprintf("stage.(*Stage).toWait: return b%d %s", rw.In.Block().Index, rw.W.String()), e.InstrPos(rw.In),
+					"a positive delay was asked for but no new timer is armed on this path: once the old timer has fired nobody re-examines the held file", 1, rw.W.String())
+			}
+		}
+		r.Min("R03.6", "return path classes of toWait with a delay", n, 1)
+		okcb := false
+		for _, cf := range WithClosures(fn) {
+			if cf == fn {
+				continue
+			}
+			if len(e.findInstrs(cf, "dyn(^p0)(^p1)", false)) == 1 {
+				okcb = true
+			}
+		}
+		arm := e.findInstrs(fn, "call(stage.(*Stage).toWait$§)(closure(stage.(*Stage).finalizeQueue$bound), p2)", false)
+		r.Check(okcb && len(arm) == 1, "R03.6", "stage.(*Stage).toWait: the timer re-queues this file for finalizing", e.Pos(fn.Pos()), "the timer callback does not hand the held file to finalizeQueue", 2)
+	}
+	if fn := needFn(e, r, "R03.6", "stage.(*Stage).isFileReady"); fn != nil {
+		tw := e.findInstrs(fn, "call(stage.(*Stage).toWait)(p0, §, p1, §)", false)
+		ok := len(tw) == 1
+		if ok {
+			d := tw[0].(ssa.CallInstruction).Common().Args[3]
+			pos := false
+			for _, lv := range e.phiLeaves(d) {
+				if k, isK := lv.(*ssa.Const); isK && constStr(k) != "0" {
+					pos = true
+				}
+			}
+			ok = pos
+		}
+		r.Check(ok, "R03.6", "stage.(*Stage).isFileReady: a file whose predecessor was not found in the log is parked with a positive retry delay", e.Pos(fn.Pos()), "no path parks the file with a retry delay: a predecessor delivered in an earlier run would never be looked for again", 1)
+		cls := labeler(C("!invoke(sts.ReceiveLogger.WasReceived)(p0.logger, p1.prev, §)", "notInLog"))
+		if len(tw) == 1 {
+			// on the not-found path the delay handed over is the positive one
+			res := e.Flow(fn, FlowOpts{Classify: cls, Target: only(tw[0]), Probe: func(in ssa.Instruction, resolve func(ssa.Value) ssa.Value) []string {
+				if k, ok := resolve(in.(ssa.CallInstruction).Common().Args[3]).(*ssa.Const); ok {
+					if constStr(k) == "0" {
+						return []string{"delay=0"}
+					}
+					return []string{"delay>0"}
+				}
+				return nil
+			}, Track: func() []*ssa.Phi {
+				if ph, ok := tw[0].(ssa.CallInstruction).Common().Args[3].(*ssa.Phi); ok {
+					return []*ssa.Phi{ph}
+				}
+				return nil
+			}()})
+			okd := true
+			for _, ws := range res.At {
+				for _, w := range ws {
+					if w.Has("notInLog") && !w.Has("delay>0") {
+						okd = false
+					}
+				}
+			}
+			r.Check(okd && !res.Undecided, "R03.6", "stage.(*Stage).isFileReady: `not found in the log` ⇒ positive delay", e.InstrPos(tw[0]), "the log miss path parks the file without a retry timer", res.Evals)
+		}
+	}
 }
